@@ -179,9 +179,50 @@ func VRefBody(p IKEPayload, lib bool, perm int) []byte {
 func VRefEncode(m *IKEMessage, lib bool, perm int) []byte {
 	var items []VItem
 	for _, p := range m.Payloads {
-		items = append(items, VItem{Type: uint8(p.Type()), Flags: vRes(lib), Body: VRefBody(p, lib, perm)})
+		items = append(items, VItem{Type: VRefType(p), Flags: vRes(lib), Body: VRefBody(p, lib, perm)})
 	}
 	return VAssemble(m.IKEHeader, items)
+}
+
+// VRefType is the RFC 7296 section 3.2 payload type number of a payload object, from the Go type (the
+// reference codec shares neither layouts nor numbers with the library: its Type() methods and Type*
+// constants are part of what is checked).
+func VRefType(p IKEPayload) uint8 {
+	switch p.(type) {
+	case *SecurityAssociation:
+		return 33
+	case *KeyExchange:
+		return 34
+	case *IdentificationInitiator:
+		return 35
+	case *IdentificationResponder:
+		return 36
+	case *Certificate:
+		return 37
+	case *CertificateRequest:
+		return 38
+	case *Authentication:
+		return 39
+	case *Nonce:
+		return 40
+	case *Notification:
+		return 41
+	case *Delete:
+		return 42
+	case *VendorID:
+		return 43
+	case *TrafficSelectorInitiator:
+		return 44
+	case *TrafficSelectorResponder:
+		return 45
+	case *Encrypted:
+		return 46
+	case *Configuration:
+		return 47
+	case *PayloadEap:
+		return 48
+	}
+	panic("VRefType: unknown payload object")
 }
 
 // VRefEncodeChain returns the type of the first payload and the chain octets (no header).
@@ -190,7 +231,7 @@ func VRefEncodeChain(ps IKEPayloadContainer, lib bool, perm int) (uint8, []byte)
 	for i, p := range ps {
 		next := uint8(0)
 		if i+1 < len(ps) {
-			next = uint8(ps[i+1].Type())
+			next = VRefType(ps[i+1])
 		}
 		body := VRefBody(p, lib, perm)
 		l := 4 + len(body)
@@ -199,7 +240,7 @@ func VRefEncodeChain(ps IKEPayloadContainer, lib bool, perm int) (uint8, []byte)
 	}
 	first := uint8(0)
 	if len(ps) > 0 {
-		first = uint8(ps[0].Type())
+		first = VRefType(ps[0])
 	}
 	return first, chain
 }
@@ -348,49 +389,49 @@ func vRefParseTS(b []byte) (IndividualTrafficSelectorContainer, bool) {
 // VRefParseBody: strict parser for one payload body of the given type; reserved fields must be zero
 // and every length must equal the real extent.
 func VRefParseBody(t uint8, b []byte) (IKEPayload, bool) {
-	switch IkePayloadType(t) {
-	case TypeSA:
+	switch t { // RFC 7296 section 3.2 numbers, not the library's constants
+	case 33: // SA
 		return vRefParseSAp(b)
-	case TypeKE:
+	case 34: // KE
 		if len(b) < 5 || b[2] != 0 || b[3] != 0 {
 			return nil, false
 		}
 		return &KeyExchange{DiffieHellmanGroup: uint16(vGet16(b, 0)), KeyExchangeData: append([]byte{}, b[4:]...)}, true
-	case TypeIDi:
+	case 35: // IDi
 		if len(b) < 5 || b[1] != 0 || b[2] != 0 || b[3] != 0 {
 			return nil, false
 		}
 		return &IdentificationInitiator{IDType: b[0], IDData: append([]byte{}, b[4:]...)}, true
-	case TypeIDr:
+	case 36: // IDr
 		if len(b) < 5 || b[1] != 0 || b[2] != 0 || b[3] != 0 {
 			return nil, false
 		}
 		return &IdentificationResponder{IDType: b[0], IDData: append([]byte{}, b[4:]...)}, true
-	case TypeCERT:
+	case 37: // CERT
 		if len(b) < 2 {
 			return nil, false
 		}
 		return &Certificate{CertificateEncoding: b[0], CertificateData: append([]byte{}, b[1:]...)}, true
-	case TypeCERTreq:
+	case 38: // CERTreq
 		if len(b) < 2 {
 			return nil, false
 		}
 		return &CertificateRequest{CertificateEncoding: b[0], CertificationAuthority: append([]byte{}, b[1:]...)}, true
-	case TypeAUTH:
+	case 39: // AUTH
 		if len(b) < 5 || b[1] != 0 || b[2] != 0 || b[3] != 0 {
 			return nil, false
 		}
 		return &Authentication{AuthenticationMethod: b[0], AuthenticationData: append([]byte{}, b[4:]...)}, true
-	case TypeNiNr:
+	case 40: // NiNr
 		return &Nonce{NonceData: append([]byte{}, b...)}, true
-	case TypeN:
+	case 41: // N
 		if len(b) < 4 || 4+int(b[1]) > len(b) {
 			return nil, false
 		}
 		s := int(b[1])
 		return &Notification{ProtocolID: b[0], NotifyMessageType: uint16(vGet16(b, 2)), SPI: append([]byte{}, b[4:4+s]...),
 			NotificationData: append([]byte{}, b[4+s:]...)}, true
-	case TypeD:
+	case 42: // D
 		if len(b) < 4 {
 			return nil, false
 		}
@@ -404,15 +445,15 @@ func VRefParseBody(t uint8, b []byte) (IKEPayload, bool) {
 			d.SPIs = append(d.SPIs, uint32(b[o])<<24|uint32(b[o+1])<<16|uint32(b[o+2])<<8|uint32(b[o+3]))
 		}
 		return d, true
-	case TypeV:
+	case 43: // V
 		return &VendorID{VendorIDData: append([]byte{}, b...)}, true
-	case TypeTSi:
+	case 44: // TSi
 		c, ok := vRefParseTS(b)
 		return &TrafficSelectorInitiator{TrafficSelectors: c}, ok
-	case TypeTSr:
+	case 45: // TSr
 		c, ok := vRefParseTS(b)
 		return &TrafficSelectorResponder{TrafficSelectors: c}, ok
-	case TypeCP:
+	case 47: // CP
 		if len(b) < 4 || b[1] != 0 || b[2] != 0 || b[3] != 0 {
 			return nil, false
 		}
@@ -430,7 +471,7 @@ func VRefParseBody(t uint8, b []byte) (IKEPayload, bool) {
 			r = r[4+l:]
 		}
 		return c, true
-	case TypeEAP:
+	case 48: // EAP
 		e, ok := eap_message.VRefParseEAP(b)
 		return &PayloadEap{EAP: e}, ok
 	}
